@@ -95,3 +95,34 @@ PROPS["C19"] = dict(
 )
 DESCR += [(r"c19_._chunked", "chunked frame, server pauses after each offset in the range; every fully arrived chunk must be readable without the transport being asked for more"),
           (r"c19_._(length|close)", "raw body, server pauses after each offset; every arrived byte must be readable without the transport being asked for more")]
+
+PROPS["C05"] = dict(
+    filters={"quick": ["c05_q", "c05_qtwin", "c04_q_read_line"], "thorough": ["c05_", "c04_q_read_line", "c04_t_read_line"]},
+    timeout_s={"quick": 600, "thorough": 3600},
+    kernel=["parse_chunk_size", "ChunkedReader::{fill_buf,read,read_chunk,read_chunk_size}", "buffers::{read_line,read_line_strict,read_line_ending}",
+            "parse_response_head (limits)", "plus every Rust panic / overflow / bounds check on all paths of the C01, C02, C03, C04, C12, C19 harnesses (reported there)"],
+    bounds="parse_chunk_size on ALL byte strings of length 0..5 and on all 16/17-hex-digit strings; read_line/read_line_strict on ALL byte strings of length <=5 with limits 0..6; "
+           "declared chunk sizes 2^31, 2^62, 2^63, 2^64-1, 2^64 with 4..13 bytes actually present; an endless size line; single-byte corruption of each framing byte with a symbolic replacement; unwind per harness",
+    outside="inputs longer than the windows; production values of the 16 KiB line cap and the 10 KiB CONNECT cap (mechanism exercised with small limits); memory use of the http/url crates",
+    stubs=["core::slice::memchr::memchr -> naive byte loop", "core::str::from_utf8 -> byte-wise validator", "io::Error::is_interrupted -> false"],
+    assumptions=["refill buffer limit shrunk to 4 bytes (hook H3); the allocation bound is shown relative to that constant"],
+)
+DESCR += [(r"c05_._parse_chunk_size_len", "parse_chunk_size on every byte string of the given length: no panic, result equals the reference on ASCII input"),
+          (r"c05_._parse_chunk_size_1", "parse_chunk_size on every 16/17-digit hex string: exact value / overflow rejected"),
+          (r"c05_._huge", "chunk declaring a huge size with only a few bytes present: buffer stays within the refill limit, body ends in an error"),
+          (r"c05_._endless", "size line without end: rejected after a bounded amount of input")]
+
+PROPS["C04"] = dict(
+    filters={"quick": ["c04_q", "c04_qtwin"], "thorough": ["c04_"]},
+    timeout_s={"quick": 600, "thorough": 3600},
+    kernel=["buffers::{read_line,read_line_strict,read_line_ending,trim_byte,trim_byte_left,trim_byte_right,replace_byte}", "parse_response_head",
+            "parse_response (Transfer-Encoding removal)", "http::{HeaderName::from_bytes,HeaderValue::from_bytes,HeaderMap::append,StatusCode::from_str} as called"],
+    bounds="line readers on ALL byte strings of length 3..6 x byte limit x BufReader capacity 1..8 x segmentation; trim/replace on all strings of length 4/7; "
+           "parse_response_head on enumerated concrete head layouts (see harness names) with every segmentation of the head",
+    outside="symbolic header names/values inside parse_response_head (a symbolic byte inside a line makes every later length symbolic for the symbolic executor; head contents are therefore enumerated, not symbolic); heads beyond 64 bytes",
+    stubs=["core::slice::memchr::memchr -> naive byte loop", "core::str::from_utf8 -> byte-wise validator", "io::Error::is_interrupted -> false"],
+    assumptions=[],
+)
+DESCR += [(r"c04_._read_line_strict", "read_line_strict on every byte string of length n: line ends at first CR LF, bounded buffering, exact hand-off position"),
+          (r"c04_._read_line_n", "read_line on every byte string of length n: line ends at first LF, bounded buffering, exact hand-off position"),
+          (r"c04_._trim", "trim_byte*/replace_byte on every byte string of length n against a direct specification")]
